@@ -279,6 +279,14 @@ pub fn pygen(out_path: &str, tier: Tier, seed: u64) -> i32 {
                 sc.problem.tags.push("goal-sampler-leaves-the-goal".into());
             }
         }
+        // a valid start that already lies in the goal, with a sampler that returns exactly the
+        // start: the core's answer has a repeated state ([start, start] - a zero-length edge);
+        // the binding must hand over the same list, not a tidied one
+        if matches!(cfg.host, Hostility::Free | Hostility::Plain) && r.bool(0.1) {
+            sc.problem.put_goal_on_start();
+            sc.problem.goal.mode = GoalMode::List(vec![sc.problem.start.clone(), sc.problem.start.clone()]);
+            sc.params.goal_bias = *r.pick(&[1.0, 0.5]);
+        }
         sc.iters = 3000;
         sc.prm_samples = 60;
         let is_prm = sc.params.kind == PKind::Prm;
